@@ -1,5 +1,10 @@
+pub mod checks;
 pub mod hsys;
+pub mod inv;
+pub mod obs;
 pub mod plan;
+pub mod planmc;
+pub mod report;
 pub mod sched;
 pub mod spec;
 
@@ -46,10 +51,67 @@ fn smoke() {
     }
 }
 
+fn arg_val(args: &[String], key: &str) -> Option<String> {
+    args.iter().position(|a| a == key).and_then(|i| args.get(i + 1).cloned())
+}
+
+fn cmd_check(args: &[String]) -> i32 {
+    let prop = args.get(2).cloned().unwrap_or_default();
+    let tier = match arg_val(args, "--tier").as_deref() {
+        Some("thorough") => checks::Tier::Thorough,
+        _ => checks::Tier::Quick,
+    };
+    let budget_s: u64 = arg_val(args, "--budget").and_then(|s| s.parse().ok()).unwrap_or(if tier == checks::Tier::Quick { 40 } else { 600 });
+    let frag_path = arg_val(args, "--frag");
+    let t0 = std::time::Instant::now();
+    sched::install_quiet_hook();
+    let mut frag = checks::Frag::new();
+    checks::run_e1(&prop, tier, std::time::Duration::from_secs(budget_s), &mut frag);
+    checks::finish(&prop, tier, frag, t0.elapsed().as_secs_f64(), frag_path.as_deref())
+}
+
+fn cmd_replay(args: &[String]) -> i32 {
+    let path = args.get(2).cloned().unwrap_or_default();
+    let txt = std::fs::read_to_string(&path).expect("read replay file");
+    let v: serde_json::Value = serde_json::from_str(&txt).expect("parse replay file");
+    sched::install_quiet_hook();
+    match v.get("kind").and_then(|k| k.as_str()) {
+        Some("plan") => {
+            let ops = spec::plan_from_json(v.get("ops").unwrap()).expect("ops");
+            let prop = v.get("property").and_then(|p| p.as_str()).unwrap_or("");
+            let info = spec::PlanInfo::of(&ops);
+            let need = obs::Need { debug: true, counters: true, setup_dispose: prop == "C13", sendable: true };
+            let o = obs::observe(&ops, &hsys::Ctx::identity_map(), need);
+            println!("plan: {}", spec::plan_short(&ops));
+            println!("calls: {:?}", o.calls);
+            println!("layout: {}", o.layout.as_ref().map(|l| l.short()).unwrap_or_else(|| "<none>".into()));
+            println!("debug: {:?}", o.debug);
+            let mut p = inv::Props::from_list(&[prop]);
+            p.c10_all = true;
+            let viols = inv::check_state(&p, &ops, &info, &o, false);
+            for vi in &viols {
+                println!("REPRODUCED {} {}: {}", vi.prop, vi.sig, vi.msg);
+            }
+            if viols.is_empty() {
+                println!("not reproduced");
+                0
+            } else {
+                1
+            }
+        }
+        k => {
+            eprintln!("unknown replay kind {:?}", k);
+            2
+        }
+    }
+}
+
 fn main() {
     let args: Vec<String> = std::env::args().collect();
     match args.get(1).map(|s| s.as_str()) {
         Some("smoke") => smoke(),
+        Some("check") => std::process::exit(cmd_check(&args)),
+        Some("replay") => std::process::exit(cmd_replay(&args)),
         _ => {
             eprintln!("usage: mc <cmd>");
             std::process::exit(2);
